@@ -63,6 +63,23 @@ def split_body(s):
                 cur = ''
             i += 1
             continue
+        if ch == '[' and cur:
+            # a bracket that opens in the middle of a token belongs to it - fun([sub script]) -: taken whole, blanks included
+            depth = 0
+            j = i
+            while j < n:
+                if s[j] == '[':
+                    depth += 1
+                elif s[j] == ']':
+                    depth -= 1
+                    if depth == 0:
+                        break
+                j += 1
+            if j >= n:
+                raise AsmError('unclosed bracket')
+            cur += s[i:j + 1]
+            i = j + 1
+            continue
         cur += ch
         i += 1
     if cur:
